@@ -89,7 +89,7 @@ class Harness:
     expect_fail: list of vk: tags that must FAIL (calibration only)."""
 
     def __init__(self, name, engine="e1", unwind=None, skeletons=None, allow_fail=None,
-                 clause="", expect_fail=(), stubs=False, timeout=None, witness=True, extra_cbmc=()):
+                 clause="", expect_fail=(), stubs=False, timeout=None, witness=True, extra_cbmc=(), split=False):
         self.name = name
         self.engine = engine
         self.unwind = unwind
@@ -101,6 +101,7 @@ class Harness:
         self.timeout = timeout
         self.witness = witness
         self.extra_cbmc = tuple(extra_cbmc)
+        self.split = split          # e2 only: one SMT query per harness obligation (+ one for all implicit properties)
 
 
 class JobResult:
@@ -505,29 +506,60 @@ def run_job(crate, harness, skeleton, jobdir, budget, want_witness=True):
                     r.status = "error"
                     r.detail = "vacuous: end of harness unreachable"
     else:
-        q = os.path.join(jobdir, "q.smt2")
-        kind, secs, sites = smt_dump(goto, harness, names, q, to)
-        r.symex_s = secs
-        r.repair_sites = sites
-        if kind == "symex":
-            r.status, r.how = "proved", "symex"
-        elif kind == "timeout":
-            r.status, r.detail = "unknown", "symex timeout"
-        elif kind.startswith("error"):
-            r.status, r.detail = "error", kind
-        else:
+        groups = [names]
+        if harness.split:
+            implicit = [p["name"] for p in query if not p["tag"]]
+            groups = [[p["name"]] for p in query if p["tag"]] + ([implicit] if implicit else [])
+        os.makedirs(jobdir, exist_ok=True)
+        verdicts = []
+
+        def one(gi, g):
+            if harness.split and len(g) > 1:
+                # implicit properties (integer / pointer / panic reachability): CaDiCaL; unwinding assertions are
+                # still part of every SMT query of the obligation groups
+                st, secs, raw = cbmc_sat(goto, harness, g, to)
+                if st is None:
+                    return ("unknown" if raw == "timeout" else "error", "cadical", secs, 0.0, 0, "implicit group: " + raw)
+                bad = [n for n in g if st.get(n) != "SUCCESS"]
+                if bad:
+                    return ("failed", "cadical", secs, 0.0, 0, "; ".join(_pdesc(by_name[n]) + " => " + str(st.get(n)) for n in bad[:4]))
+                return ("proved", "cadical", secs, 0.0, 0, "")
+            q = os.path.join(jobdir, "q%d.smt2" % gi)
+            kind, secs, sites = smt_dump(goto, harness, g, q, to)
+            if kind == "symex":
+                return ("proved", "symex", secs, 0.0, sites, "")
+            if kind == "timeout":
+                return ("unknown", "", secs, 0.0, sites, "symex timeout")
+            if kind.startswith("error"):
+                return ("error", "", secs, 0.0, sites, kind)
             v, solver, ssecs = smt_solve(q, to)
-            r.solve_s = ssecs
-            r.how = solver
             if v == "unsat":
-                r.status = "proved"
-            elif v == "sat":
-                r.status = "failed"
-                r.detail = "smt sat (%s)" % solver
-            elif v in ("disagree", "error"):
-                r.status, r.detail = "error", "solver " + v
-            else:
-                r.status, r.detail = "unknown", "smt timeout/unknown after %.0fs" % ssecs
+                return ("proved", solver, secs, ssecs, sites, "")
+            if v == "sat":
+                return ("failed", solver, secs, ssecs, sites, "smt sat (%s)" % solver)
+            if v in ("disagree", "error"):
+                return ("error", solver, secs, ssecs, sites, "solver " + v)
+            return ("unknown", solver, secs, ssecs, sites, "smt timeout/unknown after %.0fs" % ssecs)
+
+        if len(groups) == 1:
+            verdicts = [one(0, groups[0])]
+        else:
+            with cf.ThreadPoolExecutor(max_workers=min(len(groups), max(2, NCPU // 2))) as ex:
+                verdicts = list(ex.map(lambda a: one(*a), enumerate(groups)))
+        r.symex_s = sum(v[2] for v in verdicts)
+        r.solve_s = sum(v[3] for v in verdicts)
+        r.repair_sites = sum(v[4] for v in verdicts)
+        hows = sorted({v[1] for v in verdicts if v[1]})
+        r.how = "+".join(hows) if hows else "symex"
+        order = {"failed": 0, "error": 1, "unknown": 2, "proved": 3}
+        worst = min(verdicts, key=lambda v: order[v[0]])
+        r.status = worst[0]
+        if r.status != "proved":
+            bad_groups = [g for g, v in zip(groups, verdicts) if v[0] != "proved"]
+            r.detail = worst[5]
+            if harness.split:
+                r.failed = [(_pdesc(by_name[g[0]]) if len(g) == 1 else "%d implicit properties (panic freedom, overflow, pointer checks)" % len(g)) + " => " + v[0]
+                            for g, v in zip(groups, verdicts) if v[0] != "proved"]
     # vacuity witness: the end-of-harness cover must be reachable (CaDiCaL)
     if harness.witness and want_witness and r.status == "proved" and harness.engine != "e1":
         ends = [p for p in covers if "vk_end" in p["desc"]]
